@@ -142,11 +142,11 @@ def c12(G, n=4):
     ok, got = guarded('C12.is_finite', lambda: S.build(G).is_finite(), fails)
     if ok and bool(got) != S.is_finite(G): fails.append(fail('C12.is_finite', f'returned {got}; finitely many words: {S.is_finite(G)}'))
     ok, got = guarded('C12.get_generating_symbols', lambda: symset(S.build(G).get_generating_symbols()), fails)
-    if ok and got != S.generating(G): fails.append(fail('C12.get_generating_symbols', f'{sorted(got)} expected {sorted(S.generating(G))}'))
+    if ok and got != S.generating(G): fails.append(fail('C12.get_generating_symbols', f'{sorted(got, key=repr)} expected {sorted(S.generating(G), key=repr)}'))
     ok, got = guarded('C12.get_nullable_symbols', lambda: symset(S.build(G).get_nullable_symbols()), fails)
-    if ok and got != S.nullable(G): fails.append(fail('C12.get_nullable_symbols', f'{sorted(got)} expected {sorted(S.nullable(G))}'))
+    if ok and got != S.nullable(G): fails.append(fail('C12.get_nullable_symbols', f'{sorted(got, key=repr)} expected {sorted(S.nullable(G), key=repr)}'))
     ok, got = guarded('C12.get_reachable_symbols', lambda: symset(S.build(G).get_reachable_symbols()), fails)
-    if ok and got != S.reachable(G): fails.append(fail('C12.get_reachable_symbols', f'{sorted(got)} expected {sorted(S.reachable(G))}'))
+    if ok and got != S.reachable(G): fails.append(fail('C12.get_reachable_symbols', f'{sorted(got, key=repr)} expected {sorted(S.reachable(G), key=repr)}'))
     def words(k, lim=3000):
         out = []
         for w in (S.build(G).get_words(k) if k is not None else S.build(G).get_words()):
@@ -159,12 +159,12 @@ def c12(G, n=4):
         ok, got = guarded('C12.get_words', lambda: words(k), fails)
         if not ok: break
         exp = {w for w in L if len(w) <= k}
-        if sorted(got) != sorted(exp):
+        if sorted(got, key=repr) != sorted(exp, key=repr):
             fails.append(fail('C12.get_words', f'n={k}: yielded {fmt(got)[:6]} expected {fmt(exp)[:6]}' + (' (duplicates)' if len(got) != len(set(got)) else ''))); break
     longest = S.max_word_length(G)                   # exact length of the longest word of a finite non-empty language
     if S.is_finite(G) and (longest is None or longest <= 9):
         big = S.lang(G, longest if longest is not None else 0)
         if True:
             ok, got = guarded('C12.get_words.unbounded', lambda: words(None), fails)
-            if ok and sorted(got) != sorted(big): fails.append(fail('C12.get_words.unbounded', f'yielded {fmt(got)[:6]} expected {fmt(big)[:6]}'))
+            if ok and sorted(got, key=repr) != sorted(big, key=repr): fails.append(fail('C12.get_words.unbounded', f'yielded {fmt(got)[:6]} expected {fmt(big)[:6]}'))
     return fails
